@@ -351,6 +351,7 @@ pub fn main(opts: &Opts) {
                 for f in [
                     Fault::RpcError,
                     Fault::ErrWarnOk,
+                    Fault::ManyWarnErrOk,
                     Fault::ErrCount,
                     Fault::WarnOk,
                     Fault::Malformed,
